@@ -43,14 +43,23 @@ def sortDesc : List Salt → List Salt
 /-- `Salts.Store(salts)`. -/
 def store (st : Store) (new : List Salt) : Store := sortDesc (dedup (st ++ new) [])
 
+/-- `a > b`, or `a ≥ b` when the source's operator is not strict. -/
+def gtS (strict : Bool) (a b : Int) : Bool := if strict then decide (a > b) else decide (a ≥ b)
+
+/-- The validity test of `Get` (`salt.ValidUntil > date`) with the operator read from the source. -/
+def validAfter (vu date : Int) : Bool := gtS Facts.C41.getValidStrict vu date
+
+/-- The test of `Get`'s in-place filter, likewise. -/
+def keptByFilter (vu date : Int) : Bool := gtS Facts.C41.getFilterStrict vu date
+
 /-- `Salts.Get(deadline)` with `date = deadline.Unix()`: new stored list and the salt returned. -/
 def get (st : Store) (date : Int) : Store × Option Salt :=
   match st.getLast? with
   | none => (st, none)
   | some last =>
-    if last.validUntil > date then (st, some last)
+    if validAfter last.validUntil date then (st, some last)
     else
-      let st' := st.filter (fun s => s.validUntil > date)
+      let st' := st.filter (fun s => keptByFilter s.validUntil date)
       (st', st'.getLast?)
 
 /-- `Salts.Reset()`. -/
@@ -91,10 +100,10 @@ inductive Reaction where
 
 def codeIncorrectServerSalt : Nat := Facts.C41.codeIncorrectServerSalt
 
-/-- `Conn.Invoke` as far as salts are concerned: the salts attached to the request's
-transmissions, and whether `Invoke` returned an error.  `rs` = the reactions to the successive
-`rpc.Do` calls (a missing reaction = the caller's context ends). -/
-def invoke (c : Conn) (nowNs : Int) (rs : List Reaction) : Conn × List Int × Bool :=
+/-- `Conn.Invoke` as far as salts are concerned, in canonical form (store the new salt, forget the
+future salts, one more `rpc.Do`): the salts attached to the request's transmissions, and whether
+`Invoke` returned an error.  `rs` = the reactions to the successive `rpc.Do` calls. -/
+def invokeCanon (c : Conn) (nowNs : Int) (rs : List Reaction) : Conn × List Int × Bool :=
   let (c1, s1) := attach c nowNs
   match rs with
   | [] => (c1, [s1], true)
@@ -107,6 +116,37 @@ def invoke (c : Conn) (nowNs : Int) (rs : List Reaction) : Conn × List Int × B
       | .result :: _ => (c3, [s1, s2], false)
       | _ => (c3, [s1, s2], true)
     else (c1, [s1], true)
+
+/-- The operations of the bad-salt branch as read from the source (1 `storeSalt(NewSalt)`,
+2 `salts.Reset()`, 3 `return c.rpc.Do(ctx, req)`): the connection state in which the request is
+sent again, or `none` if the branch never sends again. -/
+def applyOps (ns : Int) : List Nat → Conn → Option Conn
+  | [], _ => none
+  | 1 :: r, c => applyOps ns r { c with cur := ns }
+  | 2 :: r, c => applyOps ns r { c with salts := reset c.salts }
+  | 3 :: _, c => some c
+  | _ :: r, c => applyOps ns r c
+
+/-- `Conn.Invoke` with the bad-salt branch interpreted from `ops`. -/
+def invokeW (ops : List Nat) (c : Conn) (nowNs : Int) (rs : List Reaction) : Conn × List Int × Bool :=
+  let (c1, s1) := attach c nowNs
+  match rs with
+  | [] => (c1, [s1], true)
+  | .result :: _ => (c1, [s1], false)
+  | .badMsg code ns :: rest =>
+    if code = codeIncorrectServerSalt then
+      match applyOps ns ops c1 with
+      | none => (c1, [s1], true)
+      | some c2 =>
+        let (c3, s2) := attach c2 nowNs
+        match rest with
+        | .result :: _ => (c3, [s1, s2], false)
+        | _ => (c3, [s1, s2], true)
+    else (c1, [s1], true)
+
+/-- `Conn.Invoke` of the current source. -/
+def invoke (c : Conn) (nowNs : Int) (rs : List Reaction) : Conn × List Int × Bool :=
+  invokeW Facts.C41.invokeBadSaltOps c nowNs rs
 
 /-- Events on a connection, for the driver: the harness replays a whole history per line. -/
 inductive Event where
